@@ -16,9 +16,9 @@ ID = 'C14'
 LEAN_MODULE = 'PncProofs.C14'
 LEAN_FILE = 'PncProofs/C14.lean'
 NAMESPACE = 'Props.C14'
-LEAN_CONE = ['PncModel.Words', 'PncModel.Camx.Uamiv', 'PncModel.Camx.Slab', 'PncModel.Camx.WindRead', 'PncProofs.PrefixLemmas', 'PncProofs.SlabLemmas', 'PncProofs.C13', 'PncProofs.C14']
+LEAN_CONE = ['PncModel.Words', 'PncModel.Camx.Uamiv', 'PncModel.Camx.Slab', 'PncModel.Camx.WindRead', 'PncModel.Camx.BoundaryRead', 'PncProofs.BoundaryLemmas', 'PncProofs.BoundaryPrefix', 'PncProofs.WindLemmas', 'PncProofs.WindPrefix', 'PncProofs.PrefixLemmas', 'PncProofs.SlabLemmas', 'PncProofs.C13', 'PncProofs.C14']
 LEMMA_FILES = ['PncProofs/PrefixLemmas.lean']
-REQUIRED_THEOREMS = ['prefix_safe', 'odd_cut_raises', 'slab_prefix_safe', 'leading_take', 'take_flatten_uniform']
+REQUIRED_THEOREMS = ['prefix_safe', 'odd_cut_raises', 'slab_prefix_safe', 'boundary_prefix_safe', 'wind_prefix_safe', 'wind_prefix_steps', 'leading_take', 'take_flatten_uniform']
 RULE = ('three families. (1) small generated uamiv files (1-2 species, 1-2 layers, 1-2x1-2 cells, 1-3 steps) cut at byte offsets: '
         'quick = every record boundary +-{0,1,2,3,4} bytes and 40 random offsets per file; thorough = EVERY byte '
         'offset of each file; compared: raise/no-raise and the complete view (dimension counts, species, '
@@ -31,8 +31,8 @@ RULE = ('three families. (1) small generated uamiv files (1-2 species, 1-2 layer
         'identical data of the tracers present. (4) wind (Memmap reader): cuts around every step boundary and random offsets, '
         'oracle as above plus "returns within 5 s"; (5) lateral boundary files (Memmap reader, mode r and r+ alternating): cuts around every record boundary and random offsets; oracle as above plus "the file on disk keeps its size"; non-trivial = cut inside the time-step region')
 ASSUMPTIONS = ['numpy.memmap raises when offset+shape exceeds the file (modelled as error)',
-               'the theorems (prefix_safe, odd_cut_raises) are about the uamiv reader model; slab formats are tied by the '
-               'correspondence with the Lean reader model, bpch, wind and lateral_boundary by the oracle only; cloud_rain is not in this check']
+               'the theorems are about the uamiv (prefix_safe, odd_cut_raises), slab (slab_prefix_safe), wind (wind_prefix_safe) and lateral-boundary (boundary_prefix_safe) reader models; each model is tied to its reader by the '
+               'correspondence on every cut point; bpch by the oracle only; cloud_rain is not in this check (its variable count is not stored: some prefixes are valid files of the other variant)']
 MIN_NONTRIVIAL = {'quick': 40, 'thorough': 400}
 NPROC = {'quick': 1, 'thorough': 12}
 
@@ -114,8 +114,11 @@ def gen(rng, tier):
         for n in sorted(cuts):
             out.append(dict(family='wind', spec=c, cut=n))
     # lateral boundary files (Memmap reader, read-only and in-place modes; oracle only)
-    for fi in range(1 if tier == 'quick' else 4):
-        c = S.gen_bnd(rng)
+    for fi in range(2 if tier == 'quick' else 5):
+        while True:
+            c = S.gen_bnd(rng)
+            if len(c['tflag']) >= 2 + fi % 2:       # whole leading steps are the prefixes that open
+                break
         c['species'] = c['species'][:2]
         c['nz'] = min(c['nz'], 2)
         c['bdata'] = [[[e[:(c['ny'] if ei < 2 else c['nx']) * c['nz']] for ei, e in enumerate(sp)] for sp in step[:2]] for step in c['bdata']]
@@ -307,8 +310,12 @@ def to_line(case, res):
         n = len(h) // 8
         c = case['spec']
         return 'bin wind-read %d %s' % (c['nx'] * c['ny'], h[:8 * n] or '-')
-    if fam in ('bpch', 'bnd'):
-        return 'bin slab-mm one3d 1 -'          # no model question for bpch / wind prefixes (oracle only)
+    if fam == 'bnd':
+        h = res['hex']
+        n = len(h) // 8
+        return 'bin bnd-read %s' % (h[:8 * n] or '-')
+    if fam == 'bpch':
+        return 'bin slab-mm one3d 1 -'          # no model question for bpch prefixes (oracle only)
     h = res['hex']
     n = len(h) // 8
     return 'bin uamiv-read %s %d' % (h[:8 * n] or '-', (len(h) // 2) % 4)
@@ -316,8 +323,17 @@ def to_line(case, res):
 
 def agree(case, out, res):
     fam = case.get('family', 'uamiv')
-    if fam in ('bpch', 'bnd'):
+    if fam == 'bpch':
         return None
+    if fam == 'bnd':
+        # the Memmap boundary reader (its own record maps) against its Lean model on the prefix
+        if len(res['hex']) % 8 != 0:
+            return None if 'err' in res else 'a file of %d bytes was opened' % (len(res['hex']) // 2)
+        if 'err' in res:
+            return None if out.startswith('err') else 'impl raised %s (%s), the Lean reader model reads the prefix' % (res['err'], res.get('msg'))
+        if not out.startswith('ok '):
+            return 'Lean reader model %s, impl returned %s steps' % (out[:40], res['view'].get('nt'))
+        return None if out[3:] == res['view']['raw'] else 'records of the Memmap reader differ from the Lean reader model on a prefix of %d bytes' % case['cut']
     if fam == 'wind':
         # the Memmap wind reader against its Lean model on the prefix
         if res.get('view', {}).get('hang'):
